@@ -1,12 +1,587 @@
-/-! Model for property C10 (core-only: no Mathlib import, so the driver links). -/
+import OnetVerif.Model.Util
+/-! Model for property C10: closing a server under concurrent traffic.
+
+Three transition systems, one per lock of the source, each with unboundedly many threads and
+arbitrary schedules (a schedule is a `List Act`; an action that is not enabled is skipped):
+
+* `St`/`step` — the router (`network/router.go`): every connection carries the state of the
+  goroutines tied to it — the one that sets it up (`connect`, 359-381, or the listener's callback,
+  208-245) and its receive loop (`handleConn`, 415-484); `Stop` calls (255-280) are threads of
+  their own.  One action per critical section of `r.Mutex` / blocking call.
+* `Ov`/`ovStep` — the overlay's instance table (`overlay.go`, `instancesLock`): creation of a
+  `TreeNodeInstance` with its reader goroutine, binding a protocol instance, `nodeDone`, `Close`.
+* `Ts`/`tsStep` — the tree store's cleaning goroutines and `treeStorage.Close` (`treestorage.go`).
+
+and `serverClose`, the sequence of `Server.Close` (`server.go:147-171`).  Core-only. -/
 namespace C10
 
+/-! ### the router -/
+
+inductive Role | dial | accept
+  deriving DecidableEq, Repr
+
+/-- where the goroutine that sets a connection up stands -/
+inductive Setup
+  | greeting     -- accept role: inside `receiveServerIdentity`, waiting for the peer's identity
+  | pending      -- connection open, identities exchanged, before `registerConnection`
+  | registered   -- in `r.connections`, before `launchHandleRoutine`
+  | ok           -- receive loop launched; the set-up goroutine went on without error
+  | err          -- refused or failed; the set-up goroutine returned an error
+  deriving DecidableEq, Repr
+
+/-- where the connection's `handleConn` goroutine stands -/
+inductive Handler
+  | none                  -- not launched
+  | recv                  -- blocked in `c.Receive()` (router.go:431)
+  | got (m : Option Nat)  -- `Receive` returned a packet (`some`) or an error; before `r.Closed()`
+  | disp (m : Nat)        -- passed the tests, before `r.Dispatch` (479)
+  | closing               -- returning; the deferred `c.Close()` and `wg.Done()` still to run
+  | removing              -- `wg.Done()` done, `removeConnection` still to run
+  | gone
+  deriving DecidableEq, Repr
+
+structure Conn where
+  role    : Role
+  setup   : Setup
+  h       : Handler := .none
+  isOpen  : Bool := true     -- not closed by anybody yet
+  inTable : Bool := false    -- listed in `r.connections`
+  inbox   : List Nat := []   -- messages of the peer that have arrived and are not yet read
+  deriving DecidableEq, Repr
+
+/-- counted by `r.wg`: between `wg.Add(1)` in `launchHandleRoutine` and `wg.Done()` -/
+def Handler.live : Handler → Bool
+  | .recv | .got _ | .disp _ | .closing => true
+  | _ => false
+
+/-- a `Router.Stop` call -/
+inductive StopPc
+  | crit       -- `host.Stop()` done, before the critical section (259-273)
+  | wait       -- flag set, connections closed, lock released; before / inside `wg.Wait()`
+  | returned
+  deriving DecidableEq, Repr
+
+structure St where
+  flag      : Bool := false       -- `r.isClosed`
+  listening : Bool := true        -- the host still hands new connections to the callback
+  conns     : List Conn := []
+  stops     : List StopPc := []
+  log       : List (Nat × Nat) := []   -- (connection, message) handed to `r.Dispatch`, in order
+  stopped   : Bool := false       -- ghost: some `Stop` call has returned
+  deriving DecidableEq, Repr
+
+inductive Act
+  | dial                         -- `host.Connect` succeeded and the own identity was sent
+  | incoming                     -- the listener hands a new connection to the callback
+  | identity (i : Nat) (ok : Bool)  -- the peer's identity arrives and is valid / anything else
+  | register (i : Nat)           -- `registerConnection` (498-515)
+  | launch (i : Nat)             -- `launchHandleRoutine` (517-526)
+  | peerSend (i : Nat) (m : Nat) -- environment: a message of the peer arrives
+  | peerClose (i : Nat)          -- environment: the peer closes the connection
+  | recv (i : Nat)               -- `c.Receive()` returns
+  | check (i : Nat)              -- `r.Closed()` / error classification (446-472)
+  | dispatch (i : Nat)           -- `r.Dispatch(packet)`
+  | hclose (i : Nat)             -- deferred `c.Close()`; `r.wg.Done()`
+  | hremove (i : Nat)            -- deferred `r.removeConnection`
+  | stopBegin                    -- a `Stop` call: `r.host.Stop()`
+  | stopCrit (j : Nat)           -- `r.isClosed = true`, close every listed connection
+  | stopWait (j : Nat)           -- `r.wg.Wait()` returns
+  deriving DecidableEq, Repr
+
+def anyLive (cs : List Conn) : Bool := cs.any fun c => c.h.live
+
+/-- update connection `i` (which is `c`) -/
+def St.setConn (s : St) (i : Nat) (c : Conn) : St := { s with conns := s.conns.set i c }
+
+/-- One action.  `fixed = true` is the code as it is now (a connection refused at registration is
+closed, commit d76eafc); `fixed = false` the code before.  `none` = not enabled. -/
+def step (fixed : Bool) (s : St) : Act → Option St
+  | .dial => some { s with conns := s.conns ++ [{ role := .dial, setup := .pending }] }
+  | .incoming =>
+    if s.listening then some { s with conns := s.conns ++ [{ role := .accept, setup := .greeting }] }
+    else none
+  | .identity i ok =>
+    match s.conns[i]? with
+    | some c =>
+      if c.setup = .greeting then
+        some (s.setConn i (if ok then { c with setup := .pending }
+                           else { c with setup := .err, isOpen := false }))   -- 218, 229: `c.Close()`
+      else none
+    | none => none
+  | .register i =>
+    match s.conns[i]? with
+    | some c =>
+      if c.setup = .pending then
+        some (s.setConn i (if s.flag then { c with setup := .err, isOpen := c.isOpen && !fixed }
+                           else { c with setup := .registered, inTable := true }))
+      else none
+    | none => none
+  | .launch i =>
+    match s.conns[i]? with
+    | some c =>
+      if c.setup = .registered then
+        some (s.setConn i (if s.flag then { c with setup := .err }
+                           else { c with setup := .ok, h := .recv }))
+      else none
+    | none => none
+  | .peerSend i m =>
+    match s.conns[i]? with
+    | some c => if c.isOpen then some (s.setConn i { c with inbox := c.inbox ++ [m] }) else none
+    | none => none
+  | .peerClose i =>
+    match s.conns[i]? with
+    | some c => if c.isOpen then some (s.setConn i { c with isOpen := false }) else none
+    | none => none
+  | .recv i =>
+    match s.conns[i]? with
+    | some c =>
+      if c.h = .recv then
+        if !c.isOpen then some (s.setConn i { c with h := .got none })
+        else match c.inbox with
+          | m :: rest => some (s.setConn i { c with h := .got (some m), inbox := rest })
+          | [] => none                  -- blocked
+      else none
+    | none => none
+  | .check i =>
+    match s.conns[i]? with
+    | some c =>
+      match c.h with
+      | .got x =>
+        some (s.setConn i (if s.flag then { c with h := .closing }
+                           else match x with
+                             | none => { c with h := .closing }
+                             | some m => { c with h := .disp m }))
+      | _ => none
+    | none => none
+  | .dispatch i =>
+    match s.conns[i]? with
+    | some c =>
+      match c.h with
+      | .disp m => some { (s.setConn i { c with h := .recv }) with log := s.log ++ [(i, m)] }
+      | _ => none
+    | none => none
+  | .hclose i =>
+    match s.conns[i]? with
+    | some c => if c.h = .closing then some (s.setConn i { c with h := .removing, isOpen := false }) else none
+    | none => none
+  | .hremove i =>
+    match s.conns[i]? with
+    | some c => if c.h = .removing then some (s.setConn i { c with h := .gone, inTable := false }) else none
+    | none => none
+  | .stopBegin => some { s with listening := false, stops := s.stops ++ [.crit] }
+  | .stopCrit j =>
+    if s.stops[j]? = some .crit then
+      some { s with flag := true,
+                    conns := s.conns.map (fun c => if c.inTable then { c with isOpen := false } else c),
+                    stops := s.stops.set j .wait }
+    else none
+  | .stopWait j =>
+    if s.stops[j]? = some .wait && !anyLive s.conns then
+      some { s with stops := s.stops.set j .returned, stopped := true }
+    else none
+
+/-- a schedule: actions that are not enabled are skipped -/
+def run (fixed : Bool) (s : St) : List Act → St
+  | [] => s
+  | a :: as => match step fixed s a with
+    | some s' => run fixed s' as
+    | none => run fixed s as
+
+/-- nothing is left to do for any goroutine of the router -/
+def quiescent (s : St) : Bool :=
+  s.conns.all (fun c => (c.setup == .ok || c.setup == .err) && (c.h == .none || c.h == .gone)) &&
+  s.stops.all (· == .returned)
+
+/-! ### the overlay's instance table (`overlay.go`, everything under `instancesLock`) -/
+
+structure Inst where
+  decided : Bool := false   -- `newTreeNodeInstanceFromToken` has been through its critical section
+  listed  : Bool := false   -- in `o.instances`
+  reader  : Bool := true    -- its `dispatchMsgReader` goroutine is alive
+  bound   : Bool := false   -- a protocol instance is registered for it
+  deriving DecidableEq, Repr
+
+structure Ov where
+  closed : Bool := false
+  insts  : List Inst := []
+  deriving DecidableEq, Repr
+
+inductive OvAct
+  | create              -- `newTreeNodeInstance`: the instance and its reader goroutine exist
+  | decide (i : Nat)    -- 803-813: listed, or (closed) its reader is stopped at once
+  | bind (i : Nat)      -- `RegisterProtocolInstance` (824-846)
+  | done (i : Nat)      -- `nodeDone`
+  | close               -- `Overlay.Close` (691-702)
+  deriving DecidableEq, Repr
+
+def ovStep (o : Ov) : OvAct → Option Ov
+  | .create => some { o with insts := o.insts ++ [{}] }
+  | .decide i =>
+    match o.insts[i]? with
+    | some x =>
+      if x.decided then none
+      else
+        let x' : Inst := if o.closed then { x with decided := true, reader := false }
+                         else { x with decided := true, listed := true }
+        some { o with insts := o.insts.set i x' }
+    | none => none
+  | .bind i =>
+    match o.insts[i]? with
+    | some x => if x.listed && !x.bound then some { o with insts := o.insts.set i { x with bound := true } }
+                else none      -- `ErrWrongTreeNodeInstance` / `ErrProtocolRegistered`
+    | none => none
+  | .done i =>
+    match o.insts[i]? with
+    | some x => if x.listed then some { o with insts := o.insts.set i { x with listed := false, reader := false, bound := false } }
+                else none
+    | none => none
+  | .close =>
+    some { closed := true,
+           insts := o.insts.map fun x => if x.listed then { x with listed := false, reader := false, bound := false } else x }
+
+def ovRun (o : Ov) : List OvAct → Ov
+  | [] => o
+  | a :: as => match ovStep o a with
+    | some o' => ovRun o' as
+    | none => ovRun o as
+
+/-! ### the tree store's cleaners and `treeStorage.Close` (`treestorage.go:95-160`) -/
+
+inductive Cleaner
+  | armed (cancelled : Bool)   -- in the `select`: timer not fired; its cancel channel closed or not
+  | fired                      -- the timer branch was taken; needs `ts.Lock()`
+  | done                       -- `wg.Done()` has run
+  deriving DecidableEq, Repr
+
+/-- `close(c)` on a cleaner's cancel channel -/
+def Cleaner.cancelled : Cleaner → Cleaner
+  | .armed _ => .armed true
+  | c => c
+
+inductive ClosePc | idle | locked | waiting | returned
+  deriving DecidableEq, Repr
+
+structure Ts where
+  closed   : Bool := false
+  cleaners : List Cleaner := []
+  close    : ClosePc := .idle
+  deriving DecidableEq, Repr
+
+inductive TsAct
+  | arm                 -- `Remove` (95-133): a new cleaner, unless closed
+  | fire (i : Nat)      -- a cleaner's timer fires and `select` takes that branch
+  | cleanup (i : Nat)   -- `ts.Lock(); delete …; ts.Unlock()`, then the deferred `wg.Done()`
+  | cancel (i : Nat)    -- `select` takes the cancel branch, `wg.Done()`
+  | lock                -- `Close`: `ts.Lock()`, `closed = true`, close every cancel channel
+  | unlock              -- `Close`: `ts.Unlock()`          (new order, commit 148f173)
+  | wait                -- `Close`: `ts.wg.Wait()` returns
+  deriving DecidableEq, Repr
+
+/-- `unlockFirst = true`: the code as it is now (unlock, then wait); `false`: the code before
+(wait while holding the lock). The lock is held by `Close` exactly while `close = .locked`. -/
+def tsStep (unlockFirst : Bool) (t : Ts) : TsAct → Option Ts
+  | .arm =>
+    if t.close = .locked then none
+    else if t.closed then some t
+    else some { t with cleaners := t.cleaners ++ [.armed false] }
+  | .fire i =>
+    match t.cleaners[i]? with
+    | some (.armed _) => some { t with cleaners := t.cleaners.set i .fired }
+    | _ => none
+  | .cleanup i =>
+    if t.close = .locked then none
+    else match t.cleaners[i]? with
+      | some .fired => some { t with cleaners := t.cleaners.set i .done }
+      | _ => none
+  | .cancel i =>
+    match t.cleaners[i]? with
+    | some (.armed true) => some { t with cleaners := t.cleaners.set i .done }
+    | _ => none
+  | .lock =>
+    if t.close = .idle then
+      some { t with closed := true, close := .locked,
+                    cleaners := t.cleaners.map Cleaner.cancelled }
+    else none
+  | .unlock =>
+    if t.close = .locked && unlockFirst then some { t with close := .waiting } else none
+  | .wait =>
+    if (t.close = .waiting || (t.close = .locked && !unlockFirst)) && t.cleaners.all (· == .done) then
+      some { t with close := .returned }
+    else none
+
+def tsRun (u : Bool) (t : Ts) : List TsAct → Ts
+  | [] => t
+  | a :: as => match tsStep u t a with
+    | some t' => tsRun u t' as
+    | none => tsRun u t as
+
+/-- steps the cleaners and `Close` still have to take -/
+def tsMeasure (t : Ts) : Nat :=
+  (t.cleaners.map fun c => match c with | .armed _ => 2 | .fired => 1 | .done => 0).sum +
+  (match t.close with | .idle => 3 | .locked => 2 | .waiting => 1 | .returned => 0)
+
+/-! ### `Server.Close` (`server.go:147-171`): the order of the parts -/
+
+structure Srv where
+  started   : Bool   -- `IsStarted`: `Start` is blocked on `closeitChannel`
+  routerUp  : Bool   -- the router has not been stopped
+  wsStarted : Bool   -- `WebSocket.started`
+  ovClosed  : Bool
+  tsClosed  : Bool
+  dbOpen    : Bool
+  dbFile    : Bool   -- the database file exists and is to be deleted on close (`delDb`, tests)
+  deriving DecidableEq, Repr
+
+inductive CloseRes | ok | err
+  deriving DecidableEq, Repr
+
+/-- the sequence of `Server.Close`; no step of it can panic: every part is guarded by its own
+flag, and the only error that is returned is the one of removing an already removed file -/
+def serverClose (s : Srv) : Srv × CloseRes :=
+  let s := { s with started := false }                    -- 149-153: one token on `closeitChannel`
+  let s := { s with routerUp := false }                   -- 155: `Router.Stop`
+  let s := { s with wsStarted := false }                  -- 160: `WebSocket.stop`, no-op unless started
+  let s := { s with ovClosed := true, tsClosed := true }  -- 161: `overlay.Close` → `treeStorage.Close`
+  let r := if s.dbFile then CloseRes.ok else CloseRes.err -- 162: `closeDatabase`: close, remove the file
+  ({ s with dbOpen := false, dbFile := false }, r)
+
+/-! ### line-protocol front end: named threads over the router model -/
 namespace Drv
-/-- line-protocol driver state for C10 -/
-abbrev State := Unit
-def init : State := ()
-/-- one line in (tokens after the property prefix), new state and one line out -/
-def step (s : State) (_toks : List String) : State × String := (s, "bad-op")
+
+inductive Kind | send | inc | stop
+  deriving DecidableEq, Repr
+
+/-- a thread the harness knows by name: `s<k>` (our `Send` to peer k), `i<k>` (peer k connects to
+us), `stop<n>` -/
+structure Thread where
+  name  : String
+  kind  : Kind
+  conn  : Option Nat := none     -- current connection (send/inc)
+  conns : List Nat := []         -- every connection it ever had, for naming the receive loops
+  fin   : Option String := none  -- set when the goroutine has returned
+  stop  : Nat := 0               -- index into `St.stops`
+  after : Bool := false          -- stop: parked at `stop:after-wait`
+  blocked : Bool := false        -- stop: inside `wg.Wait()`
+  deriving Repr
+
+structure State where
+  core    : St := {}
+  threads : List Thread := []
+  nstops  : Nat := 0
+  msgs    : Nat := 0
+  deriving Repr
+
+def init : State := {}
+
+/-- everything that happens by itself: a blocked `Receive` returns as soon as it can; a blocked
+`wg.Wait()` returns as soon as no receive loop is left -/
+def settle (fuel : Nat) (d : State) : State :=
+  match fuel with
+  | 0 => d
+  | fuel + 1 =>
+    let idx := List.range d.core.conns.length
+    let core := idx.foldl (fun s i => (step true s (.recv i)).getD s) d.core
+    let (core, threads) := d.threads.foldl (fun (acc : St × List Thread) t =>
+      let (s, ts) := acc
+      if t.kind = .stop && t.blocked then
+        match step true s (.stopWait t.stop) with
+        | some s' => (s', ts ++ [{ t with blocked := false, after := true }])
+        | none => (s, ts ++ [t])
+      else (s, ts ++ [t])) (core, [])
+    let d' := { d with core := core, threads := threads }
+    if core == d.core then d' else settle fuel d'
+
+def showHandler : Handler → String
+  | .none => "none" | .recv => "recv" | .got _ => "got" | .disp _ => "disp"
+  | .closing => "closing" | .removing => "removing" | .gone => "gone"
+
+/-- the canonical observation: every thread and every receive loop, in creation order, and the
+number of dispatched messages -/
+def view (d : State) : String :=
+  let parts := d.threads.flatMap fun t =>
+    match t.kind with
+    | .stop =>
+      let st := match t.fin with
+        | some f => f
+        | none =>
+          if t.after then "after" else if t.blocked then "waiting"
+          else match d.core.stops[t.stop]? with
+            | some .crit => "close" | some .wait => "wait" | _ => "?"
+      [s!"{t.name}={st}"]
+    | _ =>
+      let st := match t.fin with
+        | some f => f
+        | none => match t.conn.bind (d.core.conns[·]?) with
+          | some c => (match c.setup with
+              | .pending => "reg" | .registered => "launch" | .greeting => "greeting"
+              | .ok => "ok" | .err => "err")
+          | none => "?"
+      let hs := (List.zip t.conns (List.range t.conns.length)).filterMap fun (ci, n) =>
+        match d.core.conns[ci]? with
+        | some c => if c.h = .none then none else some s!"{t.name}.h{n + 1}={showHandler c.h}"
+        | none => none
+      s!"{t.name}={st}" :: hs
+  " ".intercalate (parts ++ [s!"disp={d.core.log.length}"])
+
+def findThread (d : State) (name : String) : Option (Nat × Thread) :=
+  (List.zip (List.range d.threads.length) d.threads).find? (·.2.name = name)
+
+def setThread (d : State) (i : Nat) (t : Thread) : State := { d with threads := d.threads.set i t }
+
+/-- find the receive loop `<thread>.h<n>` -/
+def findHandler (d : State) (name : String) : Option Nat :=
+  match name.splitOn ".h" with
+  | [tn, n] => do
+    let (_, t) ← findThread d tn
+    let n ← n.toNat?
+    if n = 0 then none else t.conns[n - 1]?
+  | _ => none
+
+/-- run the receive loop of connection `i` out of the function: `c.Close()`, `wg.Done()`,
+`removeConnection` (no parking point in between) -/
+def exitHandler (s : St) (i : Nat) : St :=
+  let s := (step true s (.hclose i)).getD s
+  (step true s (.hremove i)).getD s
+
+/-- `rel <name>`: let a parked goroutine run to its next parking point -/
+def release (d : State) (name : String) : Option State :=
+  match findHandler d name with
+  | some ci =>
+    match d.core.conns[ci]? with
+    | some c =>
+      match c.h with
+      | .got _ => do
+        let s ← step true d.core (.check ci)
+        let c' ← s.conns[ci]?
+        pure { d with core := if c'.h = .closing then exitHandler s ci else s }
+      | .disp _ => do
+        let s ← step true d.core (.dispatch ci)
+        pure { d with core := s }
+      | _ => none
+    | none => none
+  | none =>
+    match findThread d name with
+    | none => none
+    | some (ti, t) =>
+      if t.fin.isSome then none else
+      match t.kind with
+      | .stop =>
+        if t.after then some (setThread d ti { t with after := false, fin := some "ret" })
+        else if t.blocked then none
+        else match d.core.stops[t.stop]? with
+          | some .crit => (step true d.core (.stopCrit t.stop)).map fun s => { d with core := s }
+          | some .wait =>
+            (match step true d.core (.stopWait t.stop) with
+             | some s => some (setThread { d with core := s } ti { t with after := true })
+             | none => some (setThread d ti { t with blocked := true }))
+          | _ => none
+      | _ =>
+        match t.conn with
+        | none => none
+        | some ci =>
+          match d.core.conns[ci]? with
+          | none => none
+          | some c =>
+            match c.setup with
+            | .pending => do
+              let s ← step true d.core (.register ci)
+              let c' ← s.conns[ci]?
+              let d := { d with core := s }
+              pure (if c'.setup = .err then setThread d ti { t with fin := some "err" } else d)
+            | .registered => do
+              let s ← step true d.core (.launch ci)
+              let c' ← s.conns[ci]?
+              let d := { d with core := s }
+              if c'.setup = .err then pure (setThread d ti { t with fin := some "err" })
+              else pure (setThread d ti { t with fin := some "ok" })
+            | _ => none
+
+/-- `init` | `send <k>` | `resend <k>` | `in <k>` | `stop` | `rel <name>` | `msg <k>` | `peerclose <k>` | `fin` -/
+def step (d : State) (toks : List String) : State × String :=
+  let reply (d : State) := let d := settle 50 d; (d, view d)
+  match toks with
+  | ["init"] => ({}, "ok")
+  | ["send", k] =>
+    match k.toNat? with
+    | some k =>
+      if (findThread d s!"s{k}").isSome || (findThread d s!"i{k}").isSome then (d, "bad-op") else
+      let ci := d.core.conns.length
+      let s := (C10.step true d.core .dial).getD d.core
+      reply { d with core := s, threads := d.threads ++ [{ name := s!"s{k}", kind := .send, conn := some ci, conns := [ci] }] }
+    | none => (d, "bad-op")
+  | ["resend", k] =>
+    match k.toNat? with
+    | some k =>
+      if (findThread d s!"r{k}").isSome then (d, "bad-op") else
+      let t? := match findThread d s!"s{k}" with | some x => some x | none => findThread d s!"i{k}"
+      match t? with
+      | some (_, t) =>
+        -- `r.connection(id)`: the first listed connection to that peer, if any
+        let cur := t.conns.find? fun ci => match d.core.conns[ci]? with | some c => c.inTable | none => false
+        let usable := match cur.bind (d.core.conns[·]?) with | some c => c.isOpen | none => false
+        if usable then
+          reply { d with threads := d.threads ++ [{ name := s!"r{k}", kind := .send, fin := some "ok" }] }
+        else
+          -- no connection, or `c.Send` fails on the closed one: connect (324-333, 340-350)
+          let ci := d.core.conns.length
+          let s := (C10.step true d.core .dial).getD d.core
+          reply { d with core := s, threads := d.threads ++ [{ name := s!"r{k}", kind := .send, conn := some ci, conns := [ci] }] }
+      | none => (d, "bad-op")
+    | none => (d, "bad-op")
+  | ["in", k] =>
+    match k.toNat? with
+    | some k =>
+      if (findThread d s!"s{k}").isSome || (findThread d s!"i{k}").isSome then (d, "bad-op") else
+      let ci := d.core.conns.length
+      match C10.step true d.core .incoming with
+      | some s =>
+        let s := (C10.step true s (.identity ci true)).getD s
+        -- the peer's `Send` goes on: its message is on the wire
+        let s := (C10.step true s (.peerSend ci (1000 + k))).getD s
+        reply { d with core := s, threads := d.threads ++ [{ name := s!"i{k}", kind := .inc, conn := some ci, conns := [ci] }] }
+      | none =>
+        reply { d with threads := d.threads ++ [{ name := s!"i{k}", kind := .inc, fin := some "norun" }] }
+    | none => (d, "bad-op")
+  | ["stop"] =>
+    let j := d.core.stops.length
+    let s := (C10.step true d.core .stopBegin).getD d.core
+    reply { d with core := s, nstops := d.nstops + 1,
+                   threads := d.threads ++ [{ name := s!"stop{d.nstops + 1}", kind := .stop, stop := j }] }
+  | ["rel", name] =>
+    match release d name with
+    | some d' => reply d'
+    | none => (d, "bad-op")
+  | ["msg", k] =>
+    match k.toNat? with
+    | some k =>
+      let t? := match findThread d s!"s{k}" with | some x => some x | none => findThread d s!"i{k}"
+      match t? with
+      | some (_, t) =>
+        match t.conns.head? with     -- the peer writes on the connection it knows: the first one
+        | some ci =>
+          (match C10.step true d.core (.peerSend ci (2000 + d.msgs)) with
+           | some s => reply { d with core := s, msgs := d.msgs + 1 }
+           | none => reply d)       -- connection gone: the write fails, nothing arrives
+        | none => (d, "bad-op")
+      | none => (d, "bad-op")
+    | none => (d, "bad-op")
+  | ["peerclose", k] =>
+    match k.toNat? with
+    | some k =>
+      let t? := match findThread d s!"s{k}" with | some x => some x | none => findThread d s!"i{k}"
+      match t? with
+      | some (_, t) =>
+        let s := t.conns.foldl (fun s ci => (C10.step true s (.peerClose ci)).getD s) d.core
+        reply { d with core := s }
+      | none => (d, "bad-op")
+    | none => (d, "bad-op")
+  | ["fin"] =>
+    -- the final report: which connections are closed (as the peers see it), whether everything
+    -- has come to rest, and how many messages were dispatched after a `Stop` had returned
+    let closed := d.core.conns.map fun c => if c.isOpen then "0" else "1"
+    (d, s!"closed={if closed.isEmpty then "-" else ",".intercalate closed} rest={quiescent d.core} {view d}")
+  | _ => (d, "bad-op")
+
 end Drv
 
 end C10
